@@ -5,8 +5,9 @@ cd "$(dirname "$0")"
 mkdir -p evidence replays
 /venv/bin/python -m compileall -q harness check >/dev/null
 fail=0
+JT=$(mktemp -d /tmp/operon-verif.setup.XXXXXX); trap 'rm -rf "$JT"' EXIT
 for f in specs/*.tla; do
-  out=$(cd specs && java -cp /opt/veriftools/tla/tla2tools.jar:/opt/veriftools/tla/CommunityModules-deps.jar tla2sany.SANY "$(basename "$f")" 2>&1) || { echo "SANY failed: $f"; echo "$out" | tail -5; fail=1; }
+  out=$(cd specs && java -Djava.io.tmpdir="$JT" -cp /opt/veriftools/tla/tla2tools.jar:/opt/veriftools/tla/CommunityModules-deps.jar tla2sany.SANY "$(basename "$f")" 2>&1) || { echo "SANY failed: $f"; echo "$out" | tail -5; fail=1; }
   echo "$out" | grep -q -e "Semantic errors" -e "Parse Error" -e "Fatal" && { echo "SANY errors: $f"; echo "$out" | grep -A5 -e "errors" -e "Error" | head -12; fail=1; }
 done
 [ $fail = 0 ] && echo "setup ok: $(ls specs/*.tla | wc -l) specifications parsed"
